@@ -83,6 +83,6 @@ func init() {
 }
 
 func TestVerif_C02_rest_chain(t *testing.T) {
-	kit.Run(t, "C02", "rest-chain", kit.Opts{Quick: 6000, Thorough: 160000}, c02Gen,
+	kit.Run(t, "C02", "rest-chain", kit.Opts{Quick: 4000, Thorough: 96000}, c02Gen,
 		func(c c02Case) kit.Verdict { return c02Run(t, c, c02BuildEngine, true) })
 }
